@@ -2738,7 +2738,10 @@ class Processor:
                                 replacement_node)
             elif isinstance(data, (CommentedSeq, list)):
                 for idx, item in enumerate(data):
-                    if data is parent and item is reference_node:
+                    if item is reference_node and (
+                            hasattr(item, "anchor")
+                            or (data is parent
+                                and idx == parentref % len(data))):
                         data[idx] = replacement_node
                     else:
                         recurse(item, parent, parentref, reference_node,
